@@ -497,6 +497,14 @@ def check_negation(prog, rep):
                     break
                 region = p_
             p_ = f.parent(p_)
+        # when the parse and the negation are statements of one block (guard clauses instead of nesting), the region is everything in
+        # that block that follows the statement of the parse
+        if p_ is not None and p_['k'] == 'CompoundStmt':
+            kids = p_.get('c', [])
+            idx = [i for i, st in enumerate(kids) if any(y['k'] == 'CallExpr' and (f.callee(y) or {}).get('n') == 'from_chars' for y in f.walk(st))]
+            after = kids[idx[-1] + 1:] if idx else []
+            if any(any(y is negs[0][0] for y in f.walk(st)) for st in after):
+                region = {'k': 'CompoundStmt', 'i': -1, 'l': after[0].get('l', 0), 'c': after}
         if region is None:
             raise AnalysisBroken('R15.5: no block after the parse of the number encloses the negation in %s' % f.loc())
         ifs = [region]
